@@ -94,7 +94,22 @@ func runLedgerCases(t *testing.T, st *stats, prop string, r lmRule) {
 			cfg.Nodes = min(cfg.Nodes, 2)
 		}
 		seed := fmt.Sprintf("%s-%d-%d", prop, shard(), caseNo)
-		m, log, err := lmRun(rt, prop, cfg, seed)
+		var m *lm
+		var log []string
+		var err error
+		if cfg.Truncate && (prop == "C01" || prop == "C03" || prop == "C09") {
+			// truncation cases run the two-node truncation scenario (region, filler, optional late vertex on an old
+			// parent, truncate, re-submissions, follow-ups) with this property's oracles
+			plan := c07Plan{Region: rapid.IntRange(5, 40).Draw(rt, "region"), Extra: rapid.IntRange(0, 40).Draw(rt, "extra"),
+				StaleTip: rapid.Bool().Draw(rt, "stale"), FollowUps: rapid.IntRange(3, 12).Draw(rt, "followUps"), Rogue: true}
+			cfg.Nodes, cfg.Users, cfg.Rogue = 2, 4, true
+			m, log, err = c07Run(rt, plan, seed)
+			if m != nil {
+				m.cfg.Truncate = true
+			}
+		} else {
+			m, log, err = lmRun(rt, prop, cfg, seed)
+		}
 		if err != nil {
 			st.note("world creation failed: %v", err)
 			rt.Skip("world creation failed")
